@@ -2,6 +2,7 @@ import DdoModel.Engines.Small
 import DdoModel.Engines.Fringe
 import DdoModel.Engines.Mdd
 import DdoModel.Engines.Seq
+import DdoModel.Engines.Par
 /-! Line-protocol driver.  stdin: pairs of lines
       `C <engine> <id> <case tokens…>`
       `I <id> <implementation output tokens…>`
@@ -18,6 +19,7 @@ def dispatch (engine : String) (c i : List String) : Option Res :=
   | "mdd" => mddEngine c i
   | "seq" => seqEngine c i
   | "seqcut" => seqcutEngine c i
+  | "par" => parEngine c i
   | _ => none
 
 partial def loop (h : IO.FS.Stream) (out : IO.FS.Stream) : IO Unit := do
